@@ -72,7 +72,16 @@ def worker_main(args):
         run_seed = h64(seed, pid, idx)
         # thorough tier: every third history is generated with the size knob doubled (longer DAGs,
         # more events per epoch, more epochs/iterations); a pure function of (tier, idx)
-        hist = gen_history(pid, run_seed, 2 if (getattr(args, "tier", "quick") == "thorough" and idx % 3 == 2) else 1)
+        try:
+            hist = gen_history(pid, run_seed, 2 if (getattr(args, "tier", "quick") == "thorough" and idx % 3 == 2) else 1)
+        except Exception:  # a generator bug is a harness failure of this run, not of the whole worker
+            import traceback
+
+            out.write(json.dumps({"type": "harness_error", "run_seed": run_seed, "idx": idx, "err": "generator: " + traceback.format_exc()[-1500:]}) + "\n")
+            out.flush()
+            idx += stride
+            n += 1
+            continue
         measure = cov is not None and n % 25 == 0
         try:
             if measure:
